@@ -174,7 +174,9 @@ class C12(Check):
                 env.append({'kind': 'py_version', 'v': rng.choice(PY_VERSIONS)})
             elif r < 0.62 and i > 0:
                 env.append({'kind': 'delete', 'path': rng.choice(paths)})
-            elif r < 0.70 and i > 0:
+            elif r < 0.66:
+                env.append({'kind': 'path_state', 'path': rng.choice(paths), 'state': rng.choice(['directory', 'readonly_dir', 'unreadable', None, None])})
+            elif r < 0.74 and i > 0:
                 env.append({'kind': 'replace_with_valid', 'path': rng.choice(paths), 'key': rng.choice(keys),
                             'lark_version': rng.choice(LARK_VERSIONS), 'py': rng.choice(PY_VERSIONS)})
             faults, aft, load_exc = self._gen_life_faults(rng)
@@ -437,7 +439,7 @@ class C12(Check):
         if isinstance(path, str) and (cpaths - {path}):
             return Violation('collateral-access', life=li, key=keyname, paths=sorted(cpaths - {path}))
         # (4) repair: after a lifetime without any fault the file is a valid cache for this key
-        if not proc.fired and not fired_exc[0]:
+        if not proc.fired and not fired_exc[0] and not any(p_ in disk.path_state for p_ in cpaths):
             rp = next(iter(cpaths), None)
             if rp is None or rp not in disk.files:
                 return Violation('not-repaired(no-file)', life=li, key=keyname)
@@ -526,6 +528,15 @@ class C12(Check):
         elif k == 'delete':
             if isinstance(ev['path'], str):
                 disk.files.pop(ev['path'], None)
+        elif k == 'path_state':
+            if isinstance(ev['path'], str):
+                if ev['state'] is None:
+                    disk.path_state.pop(ev['path'], None)
+                else:
+                    disk.path_state[ev['path']] = ev['state']
+                    if ev['state'] == 'directory':
+                        disk.files.pop(ev['path'], None)
+                    out.count('env:path-' + ev['state'])
         elif k == 'replace_with_valid':
             if not isinstance(ev['path'], str):
                 return
